@@ -9,6 +9,7 @@ CONSTANTS
   CtxMayExpire = FALSE
   ClientMayClose = FALSE
   HandlerMayClose = FALSE
+  StartMayFail = FALSE
   SeqRestart = TRUE
   Bug = "none"
   TrackAct = TRUE
